@@ -79,7 +79,7 @@ func predicates(r *rand.Rand, s *gen.Stream) []pred {
 }
 
 func runC19(c *mon.Ctx) {
-	n := c.Pick(1000, 6000)
+	n := c.Pick(1000, 120000)
 	for i := int64(0); i < n; i++ {
 		if !c.Mine("streams", i) {
 			continue
